@@ -2,27 +2,29 @@
   Driver family `blk` (C13): the blocking event machine `Ferrous.Blk`.
 
   One session = one line stream.  Keys and elements travel as lower-case hex (`-` = empty).
-    cfg <npe> <wap> <uas> <rit> <ddk> <dra> <nbh> <dfb> <xat> <wcc> -> ok   quirk switches (0/1): notifyPerElement wakeAtPush
+    cfg <npe> <wap> <uas> <rit> <ddk> <dra> <nbh> <dfb> <xat> <wcc> <svd> <pri> -> ok   quirk switches (0/1): notifyPerElement wakeAtPush
                                                    unregisterAllOnServe refuseBlockingInTx dedupKeys drainAll
-                                                   noticeBlockedHangup deferBatchWhenBlocked execAtomic wakeChecksClient; resets the state
+                                                   noticeBlockedHangup deferBatchWhenBlocked execAtomic wakeChecksClient
+                                                   serveDrains probeReadsInput; resets the state
     reset                              -> ok
     ev wakeups                         -> <A> <tags> <F> <ftags> <outs>
     ev timeouts <now>                  -> <A> <tags> <F> <ftags> <outs>
     ev hangup <c> | ev reap <c>        -> <A> <tags> <F> <ftags> <outs>
+    ev kill <c> | ev dirty <c>         -> <A> <tags> <F> <ftags> <outs>     CLIENT KILL of c / c writes bytes, then closes (`hangupDirty`)
     ev conn <c> <now> <cmd> ...        -> <A> <tags> <F> <ftags> <outs>
          cmd  = bpop:<L|R>:<k|k…>:<ms> | push:<L|R>:<k>:<v|v…> | pop:<L|R>:<k> | multi | exec
          A    = 1 iff the event satisfies `eventOk` in the state before it (the history stays `Allowed`)
          tags = which conjunct of `eventOk` failed, joined by `,` (`.` = none): multi-key multi-push
                 pop-while-wake exec-conn0 second-bpop hangup-blocked arity
          F    = 1 iff the event satisfies `eventOkF` (the history stays `AllowedFixed`); ftags = which conjunct
-                failed: hangup-blocked second-bpop big-push
+                failed: hangup-blocked hangup-behind-bytes second-bpop big-push kill-blocked batch-before-hangup-noticed
          outs = replies written by this event, `c:r` joined by `,` (`.` = none)
          r    = i<n> | b=<k>=<v> | n | p=<k>=<v> | na | ok | q | e | h<n>
     dump <c|c…> <k|k…>                 -> reg=… wq=… lists=… conns=… lost=<n> stranded=… leftover=… unreg=…
          reg      `k:c~dl+c~dl…` per key with waiters (first-appearance order; dl = deadline or inf) joined by `;`
          wq       `c@k` joined by `,`
          lists    `k:v|v…` for every asked key
-         conns    `c:<-|B/k|k…/<deadline|inf>/<L|R>><d if frames are deferred><x if peer closed><g if gone><t if in MULTI>`
+         conns    `c:<-|B/k|k…/<deadline|inf>/<L|R>><d if frames are deferred><x if peer closed><u if bytes of the peer are unread><g if gone><t if in MULTI>`
          stranded asked (conn@key) blocked on a non-empty key while the wake queue is empty (NoStrandedClient)
          leftover asked conns that are not blocked but named by the registry or the wake queue (NoLeftoverRegistration)
          unreg    asked conns that are blocked but in no queue while the wake queue is empty (RegistryIffBlocked, ←)
@@ -102,6 +104,8 @@ def readEvent : List String → Option Event
   | ["timeouts", n] => n.toNat?.map .timeouts
   | ["hangup", c] => c.toNat?.map .hangup
   | ["reap", c] => c.toNat?.map .reap
+  | ["kill", c] => c.toNat?.map .kill
+  | ["dirty", c] => c.toNat?.map .hangupDirty
   | "conn" :: c :: n :: cmds => do
       let c ← c.toNat?
       let n ← n.toNat?
@@ -134,7 +138,7 @@ def showConn (s : State) (c : Conn) : String :=
         | none => "inf"
         | some d => toString d
       "B/" ++ hexList b.keys ++ "/" ++ dl ++ "/" ++ showOp b.op
-  s!"{c}:{b}" ++ (if cs.pending.isEmpty then "" else "d") ++ (if cs.peerClosed then "x" else "") ++ (if cs.gone then "g" else "") ++ (if cs.inTx then "t" else "")
+  s!"{c}:{b}" ++ (if cs.pending.isEmpty then "" else "d") ++ (if cs.peerClosed then "x" else "") ++ (if cs.unread then "u" else "") ++ (if cs.gone then "g" else "") ++ (if cs.inTx then "t" else "")
 
 def inLine (s : State) (c : Conn) : Bool :=
   s.registry.any (fun e => e.2.conn == c) || s.wakeQ.any (fun w => w.conn == c)
@@ -189,8 +193,11 @@ def topSeqTags (q : Quirks) (now : Nat) (c : Conn) : List Cmd → State → List
 
 def eventTags (q : Quirks) (s : State) : Event → List String
   | .conn c now cmds =>
-    if canRun s c then topSeqTags q now c ((s.conns c).pending ++ cmds) (setConn s c fun cs => { cs with pending := [] }) else []
+    if canRun s c then topSeqTags q now c ((s.conns c).pending ++ cmds) (setConn s c fun cs => { cs with pending := [] })
+    else if ghostRun s c then ["hangup-behind-bytes"] else []
   | .hangup c => if (s.conns c).blocked.isSome then ["hangup-blocked"] else []
+  | .hangupDirty c => if (s.conns c).blocked.isSome then ["hangup-behind-bytes"] else []
+  | .kill c => if (s.conns c).blocked.isSome then ["kill-blocked"] else []
   | _ => []
 
 /-! The same for `dataOkF` / `eventOkF`. -/
@@ -224,15 +231,19 @@ def topSeqTagsF (q : Quirks) (now : Nat) (c : Conn) : List Cmd → State → Lis
 def eventTagsF (q : Quirks) (s : State) : Event → List String
   | .conn c now cmds =>
     (if calmReg s then [] else ["batch-before-hangup-noticed"]) ++
-    if canRun s c then topSeqTagsF q now c ((s.conns c).pending ++ cmds) (setConn s c fun cs => { cs with pending := [] }) else []
+    if canRun s c then topSeqTagsF q now c ((s.conns c).pending ++ cmds) (setConn s c fun cs => { cs with pending := [] })
+    else if ghostRun s c then ["hangup-behind-bytes"] else []
   | .hangup c => if (s.conns c).blocked.isSome && !(q.noticeBlockedHangup && q.wakeChecksClient) then ["hangup-blocked"] else []
+  | .hangupDirty c =>
+    if (s.conns c).blocked.isSome && !(q.noticeBlockedHangup && q.wakeChecksClient && q.probeReadsInput) then ["hangup-behind-bytes"] else []
+  | .kill c => if (s.conns c).blocked.isSome then ["kill-blocked"] else []
   | _ => []
 
 def step (ss : Sess) (ws : List String) : Sess × String :=
   match ws with
   | "cfg" :: flags =>
     match flags.mapM readBool with
-    | some [a, b, c, d, e, f, g, h, i, j] => ({ q := ⟨a, b, c, d, e, f, g, h, i, j⟩, s := {} }, "ok")
+    | some [a, b, c, d, e, f, g, h, i, j, k, l] => ({ q := ⟨a, b, c, d, e, f, g, h, i, j, k, l⟩, s := {} }, "ok")
     | _ => (ss, "bad-op")
   | ["reset"] => ({ ss with s := {} }, "ok")
   | "ev" :: rest =>
